@@ -89,6 +89,17 @@ func (ex *Exec) callAbstract(fr *frame, fv Val, cc *ssa.CallCommon, args []Val, 
 		name = p.Name()
 	}
 	if isNamed(cc.Value.Type(), "context", "CancelFunc") {
+		// cancelling marks the associated context (and, through ctx.parent, its descendants) done
+		if ex.pure == 0 && len(fv.L) == 1 {
+			ex.registerKey("X|ctx.cancels", arrSort(sInt, sInt))
+			target := sel(ex.heapGet(st, "X|ctx.cancels", arrSort(sInt, sInt)), fv.L[0])
+			done := ex.ctxDone(st)
+			r := "true"
+			if reach != nil {
+				r = *reach
+			}
+			st.H["X|ctx.done"] = ex.name("ctxdone", ite(r, sto(done, target, "true"), done), arrSort(sInt, sBool))
+		}
 		return Val{T: sig.Results()}
 	}
 	// ghost call counter
